@@ -9,6 +9,7 @@ import (
 	"fmt"
 	"sort"
 	"sync"
+	"time"
 )
 
 type lItem struct {
@@ -66,6 +67,9 @@ type Ledger struct {
 	// the middle of a dispatch.
 	Hold chan struct{}
 	Held bool
+
+	// SubDelay makes Subscribe take (virtual) time, as a broker round trip would
+	SubDelay time.Duration
 }
 
 func NewLedger(env *Env, prio bool) *Ledger {
@@ -263,6 +267,9 @@ func (l *Ledger) close() error {
 }
 
 func (l *Ledger) subscribe(f func(string)) {
+	if l.SubDelay > 0 {
+		time.Sleep(l.SubDelay)
+	}
 	l.mu.Lock()
 	l.subs = append(l.subs, f)
 	l.logCall("sub", -1, "")
